@@ -45,6 +45,7 @@ type Workload struct {
 	Plans      [][]Op   `json:"plans"`
 	Changes    []Change `json:"changes"`
 	YieldUs    int      `json:"yield_us"` // perturbation at the hook points
+	EarlyStop  bool     `json:"early_stop"` // Destroy() is issued while run-time changes are still being applied (shutdown during an update)
 }
 
 const watchdog = 15 * time.Second
@@ -119,9 +120,16 @@ var subWL = ev.Register("cache-workloads",
 					}
 				}(plan)
 			}
-			wg.Add(1)
+			var cwg sync.WaitGroup
+			cwg.Add(1)
+			if !w.EarlyStop {
+				wg.Add(1)
+			}
 			go func() {
-				defer wg.Done()
+				defer cwg.Done()
+				if !w.EarlyStop {
+					defer wg.Done()
+				}
 				for _, c := range w.Changes {
 					time.Sleep(time.Duration(c.AfterUs) * time.Microsecond)
 					var v any = c.Value
@@ -138,6 +146,7 @@ var subWL = ev.Register("cache-workloads",
 			k.C.Destroy()
 			phase.Store("second destroy")
 			k.C.Destroy()
+			cwg.Wait()
 		}()
 		select {
 		case <-done:
@@ -157,6 +166,7 @@ var subWL = ev.Register("cache-workloads",
 		o.Classf("evictions:%v", ev > 0)
 		o.Classf("janitor-cycles:%v", runs > 0)
 		o.Classf("config-changes:%d", len(w.Changes))
+		o.Classf("stop-during-changes:%v", w.EarlyStop && len(w.Changes) > 0)
 		o.NonTrivial = ev > 0 && runs > 0
 		k.Close()
 		return nil
@@ -176,6 +186,7 @@ func drawWorkload(t *rapid.T) Workload {
 		JanitorMs: rapid.SampledFrom([]int{1, 1, 2, 5}).Draw(t, "janitor"),
 		Procs:     rapid.SampledFrom([]int{0, 1, 2, 4, 16}).Draw(t, "procs"),
 		YieldUs:   rapid.SampledFrom([]int{0, 0, 50, 500}).Draw(t, "yield"),
+		EarlyStop: rapid.IntRange(0, 2).Draw(t, "early-stop") == 0,
 	}
 	body := rapid.SampledFrom([]int{100, 4000, 60000}).Draw(t, "body")
 	w.LimitBytes = int64(body) * int64(rapid.IntRange(2, 3).Draw(t, "bodies"))
